@@ -79,13 +79,26 @@ func init() {
 					}
 					for _, id := range pr.PassSeq {
 						parts := strings.SplitN(id, "|", 3)
-						if len(parts) != 3 || !strings.HasPrefix(parts[0], "plugin") {
+						if len(parts) != 3 || (!strings.HasPrefix(parts[0], "plugin") && parts[0] != "host") {
 							continue
 						}
 						proc, on, key := parts[0], parts[1], parts[2]
 						cnt := pr.SitePass[proc+" "+key]
 						if on == "event" {
 							cnt = pr.EvPass[proc+" "+key]
+						}
+						if proc == "host" {
+							// the plugin dies exactly while a HOST goroutine is at this
+							// statement of go-plugin (and stays there for 50 ms)
+							if on != "site" {
+								continue
+							}
+							for occ := 1; occ <= maxOcc && occ <= cnt; occ++ {
+								s := sp("C03", fmt.Sprintf("crash-at-host/%s/%s#%d", pr.Info["conf"], key, occ), seed, cp(pr.Spec.Params))
+								s.Triggers = []*k.Trigger{{On: on, Proc: proc, Key: key, Occ: occ, Act: "killprocsleep:plugin:50000000"}}
+								out = append(out, s)
+							}
+							continue
 						}
 						for occ := 1; occ <= maxOcc && occ <= cnt; occ++ {
 							for _, act := range acts {
